@@ -193,3 +193,14 @@ func (r *Result) Write(dir string) {
 		panic(err)
 	}
 }
+
+// Inflight records the input that is about to be handed to the implementation, so that a fatal
+// runtime error (out of memory, unrecoverable panic in another goroutine, deadlock) that kills the
+// harness still leaves the concrete failing input behind for the check to report.
+func Inflight(dir, site, class, input string) {
+	b, _ := json.Marshal(map[string]string{"site": site, "input_class": class, "input": input})
+	_ = os.WriteFile(filepath.Join(dir, "inflight.json"), b, 0o644)
+}
+
+// InflightDone removes the record after the call returned.
+func InflightDone(dir string) { _ = os.Remove(filepath.Join(dir, "inflight.json")) }
